@@ -79,6 +79,16 @@ func (shieldComp) Exec(c *wire.Case, w *wire.Writer) {
 	lg := &recLogger{conv: shieldEventRec}
 	logging.InitLoggers(lg)
 	defer logging.InitLoggers()
+	var readd *wire.Rec
+	ev.ShieldRemoved.Subscribe(func(e event.ShieldRemoved) {
+		op := readd
+		if op == nil {
+			return
+		}
+		readd = nil // once
+		stub.props[e.Target] = info.PropMap{prop.HPBase: 1000}
+		mgr.AddShield(key.Shield(fmt.Sprintf("k%d", op.Int("rekey"))), info.Shield{Source: e.Target, Target: e.Target, BaseShield: info.ShieldMap{}, ShieldValue: op.Flt("rehp")})
+	})
 	for id := 1; id <= 4; id++ {
 		_ = attr.AddTarget(key.TargetID(id), info.Attributes{Level: 1, HPRatio: 1, MaxEnergy: 100})
 		stub.props[key.TargetID(id)] = info.NewPropMap()
@@ -108,7 +118,13 @@ func (shieldComp) Exec(c *wire.Case, w *wire.Writer) {
 				mgr.AddShield(key.Shield(fmt.Sprintf("k%d", op.Int("key"))), info.Shield{
 					Source: src, Target: tgt, BaseShield: bs, ShieldValue: op.Flt("flat")})
 			case "remove":
+				// optionally with a listener that answers the announcement of this removal with a new shield for the same unit
+				// (a backup shield: flat strength, no bonuses), from inside the announcement
+				if op.Has("rekey") {
+					readd = op
+				}
 				mgr.RemoveShield(key.Shield(fmt.Sprintf("k%d", op.Int("key"))), tgt)
+				readd = nil
 			case "absorb":
 				out := mgr.AbsorbDamage(tgt, op.Flt("dmg"))
 				lg.recs = append(lg.recs, wire.R("ret").F("out", out))
@@ -169,6 +185,9 @@ func (shieldComp) Gen(r *rand.Rand, tier string, n int) []*wire.Case {
 	// shields of negative strength (a bonus below -100 %, a negative flat value): still shields — a hit takes from each, none ends below zero, those at zero go
 	mk("d-negative-strength", neg(plain(1, 1, 2, map[int]float64{2: 0.4}, 10)), neg(plain(2, 1, 2, map[int]float64{}, 20)), abs(2, 30), abs(2, 5),
 		plain(3, 1, 2, map[int]float64{}, -25), plain(4, 1, 2, map[int]float64{1: 1}, 0), abs(2, 30), abs(2, 100), plain(5, 3, 3, map[int]float64{}, -1), abs(3, 0), abs(3, -2), abs(3, 0.5))
+	// a listener that answers the removal of a shield with a backup shield, from inside the announcement: of the only shield, of one of two, under the removed key again
+	mk("d-readd-on-remove", plain(1, 1, 2, map[int]float64{1: 1}, 50), rm(1, 2).I("rekey", 7).F("rehp", 40), abs(2, 25), rm(7, 2).I("rekey", 7).F("rehp", 10), abs(2, 4),
+		plain(2, 1, 3, map[int]float64{1: 1}, 0), plain(3, 1, 3, map[int]float64{}, 30), rm(2, 3).I("rekey", 3).F("rehp", 99), rm(5, 3).I("rekey", 8).F("rehp", 5), abs(3, 50))
 	mk("d-equal", plain(1, 1, 2, map[int]float64{1: 1}, 0), abs(2, 50), abs(2, 50))
 	mk("d-three-terms", plain(1, 1, 2, map[int]float64{1: 0.1, 2: 0.7, 3: 0.013, 4: 0.0007, 5: 0.3}, 0.1), abs(2, 3))
 	mk("d-total-shield", plain(1, 2, 1, map[int]float64{1: 1}, 0), plain(2, 1, 3, map[int]float64{5: 0.5}, 0), abs(3, 10))
@@ -185,7 +204,11 @@ func (shieldComp) Gen(r *rand.Rand, tier string, n int) []*wire.Case {
 				}
 				ops = append(ops, shieldAddOp(r, pick(r, 1, 2, 3), pick(r, 1, 2, 3), tgt, terms, pick(r, 0.0, 0, 30, 120.5, 30, -20, -500)))
 			case 4:
-				ops = append(ops, rm(pick(r, 1, 2, 3, 4), tgt))
+				op := rm(pick(r, 1, 2, 3, 4), tgt)
+				if r.Intn(4) == 0 {
+					op.I("rekey", pick(r, 1, 2, 5)).F("rehp", pick(r, 10.0, 75, 300))
+				}
+				ops = append(ops, op)
 			default:
 				ops = append(ops, abs(tgt, pick(r, 0.0, -3, 10, 55, 200, 1000, 0.5, 1, amount(r, 300))))
 			}
